@@ -146,6 +146,9 @@ def judge(idx, edits, trailer, res, ctx, label):
     if any(k == "quote" for k, _, _ in edits) and not sites.quoting_preserved(new_sql, edits):
         res.discard("quoted_variant_rejected_or_reread_by_parser")
         return None
+    if any(k == "glue" for k, _, _ in edits) and not rewrite.parses(new_sql, "ansi" if dialect == "non-validating" else dialect):
+        res.discard("comment_as_only_separator_rejected_by_the_parser")
+        return None
     inner_changed = sites.apply(edits, None) != sql
     c = {"dialect": dialect, "original": sql, "rewritten": new_sql, "edits": [list(e) for e in edits]}
     res.case(sql + "\x00" + new_sql + "\x00" + dialect, inner_changed,
@@ -179,7 +182,7 @@ def judge(idx, edits, trailer, res, ctx, label):
 def strategy(my_idxs):
     from hypothesis import strategies as st
 
-    kinds = st.sampled_from(["ws", "comment", "case", "case", "quote", "comment"])
+    kinds = st.sampled_from(["ws", "comment", "case", "case", "quote", "comment", "glue"])
     edit = st.tuples(kinds, st.integers(0, 400), st.integers(0, 5))
     return st.tuples(st.sampled_from(my_idxs), st.lists(edit, min_size=1, max_size=8), st.one_of(st.none(), st.integers(0, 5)))
 
@@ -216,9 +219,9 @@ def _exhaustive_worker(payload):
             v = judge(idx, [e], None, res, ctx, "single-site")
             if v is not None and len(res.violations) < 3:
                 res.violation(v["kind"], v["case"], v["detail"])
-        for kind, count in (("ws", len(sites.ws)), ("comment", len(sites.ws)), ("case", len(sites.words)), ("quote", len(sites.idents))):
+        for kind, count in (("ws", len(sites.ws)), ("comment", len(sites.ws)), ("case", len(sites.words)), ("quote", len(sites.idents)), ("glue", len(sites.glue))):
             if count:
-                for choice in range(4 if kind != "quote" else 1):
+                for choice in range(4 if kind not in ("quote", "glue") else 1):
                     v = judge(idx, [(kind, s, choice) for s in range(count)], choice, res, ctx, "all-sites:" + kind)
                     if v is not None and len(res.violations) < 3:
                         res.violation(v["kind"], v["case"], v["detail"])
@@ -261,9 +264,9 @@ def _allsites_worker(payload):
             continue
         if len(sites.toks) > 400 and (idx + ctx.seed) % 4:
             continue
-        for kind, count in (("ws", len(sites.ws)), ("comment", len(sites.ws)), ("case", len(sites.words)), ("quote", len(sites.idents))):
+        for kind, count in (("ws", len(sites.ws)), ("comment", len(sites.ws)), ("case", len(sites.words)), ("quote", len(sites.idents)), ("glue", len(sites.glue))):
             if count:
-                for choice in ((ctx.seed % 4, (ctx.seed + 2) % 4) if kind != "quote" else (0,)):
+                for choice in ((ctx.seed % 4, (ctx.seed + 2) % 4) if kind not in ("quote", "glue") else (ctx.seed % 3,)):
                     v = judge(idx, [(kind, s, choice) for s in range(count)], choice, res, ctx, "all-sites:" + kind)
                     if v is not None and len(res.violations) < 3:
                         res.violation(v["kind"], v["case"], v["detail"])
